@@ -134,7 +134,9 @@ class StatementInserter(ast.NodeTransformer, EmitterMixin):
             loop_node_copy.body
         )
         if self.global_guards_enabled:
-            loop_guard = make_guard_name(loop_node_copy)
+            # named after the registered pristine loop, which lives as long as the rewritten code can run:
+            # the id of the temporary copy may be reused by the copy of another loop or function
+            loop_guard = make_guard_name(self.orig_to_copy_mapping[id(node)], "_body")
             self.register_guard(loop_guard)
         else:
             loop_guard = None
@@ -214,7 +216,8 @@ class StatementInserter(ast.NodeTransformer, EmitterMixin):
             fundef_copy.body
         )
         if self.global_guards_enabled:
-            function_guard = make_guard_name(fundef_copy)
+            # as for loops: named after the registered pristine definition, not after the temporary copy
+            function_guard = make_guard_name(self.orig_to_copy_mapping[id(node)], "_body")
             self.register_guard(function_guard)
         else:
             function_guard = None
